@@ -94,7 +94,7 @@ def sym_aligned(eng, s, tag="p", absolute=None):
     if absolute is True:
         s.pc.append(z3.Not(rel))
         rel = False
-    o = s.new("AlignedPadding", {"width": w, "height": h, "h_align": ha, "v_align": va, "fill": z3.String(tag + "_fill") if False else " ", "relative": rel})
+    o = s.new("AlignedPadding", {"width": w, "height": h, "h_align": ha, "v_align": va, "fill": "*", "relative": rel})      # a non-default fill: dropping it is visible
     return o, (w, h, ha, va)
 
 
